@@ -494,3 +494,72 @@ def replay_name_index(payload):
                         if nm not in elems or gname != nm:
                             return {'reproduced': True, 'call': call, 'observed': gname, 'expected': nm if nm in elems else 'IndexError'}
     return {'reproduced': False, 'note': 'no failing (window, name) found'}
+
+
+def put_one_specs(prop='C03'):
+    """fst_put_one:_put_one, the branch that handles a sliceable field without a handler / a deletion: the single-element
+    index is normalised like Python list indexing (negative from the end, IndexError out of range, the docstring offset of
+    the virtual `_body`), and the operation is delegated exactly once to _put_slice(code, i, i + 1, field, one=True)."""
+    from pyvc import frontend
+    from pyvc.contract import Fragment
+    from pyvc.interp import Interp, IFunc, SObj, PyRaise
+
+    def run(ctx, case, loc, pre, label):
+        n = ctx.int('len_field')
+        idx = ctx.int('idx')
+        ctx.assume(n >= 0)
+        field = case['field']
+        docstr = ctx.int('has_docstr') if field == '_body' else 0
+        if field == '_body':
+            ctx.assume(and_(0 <= docstr, docstr <= 1, docstr <= n))
+        calls = []
+        CLS = SObj('Cls', {})
+
+        class Lst:
+            def _sym_len(self):
+                return n
+        a = SObj('a', {}, **{'__class__': CLS, 'body': Lst(), field.lstrip('_') if field != '_all' else 'keys': Lst()})
+        if field not in ('_body', '_all'):
+            a._set(field, Lst(), count=False)
+        self = SObj('self', {}, a=a, root=SObj('root', {}), has_docstr=docstr)
+        if field.startswith('_') and field != '_body':
+            self._set(field, Lst(), count=False)
+        new_self = SObj('new_self', {}, a=SObj('new_a', {}))
+
+        def put_slice(code, s, e, fld, one=False, options=None):
+            calls.append((s, e, fld, one))
+            return new_self
+        self._set('_put_slice', put_slice, count=False)
+
+        class Handlers:
+            def get(self, key, default=None):
+                return (True, None, None)      # sliceable, no dedicated handler
+        it = Interp({'_PUT_ONE_HANDLERS': Handlers(), 'fst': SObj('fst', {}, FST=SObj('FSTcls', {})),
+                     'isinstance': lambda o, t: False, '_ASTS_LEAF_MAPPING': frozenset(), 'arguments': SObj('arguments', {}),
+                     '_ASTS_LEAF_PATTERN_ATTRLIKES': frozenset()})
+        it.globals['fixup_one_index'] = IFunc(it, frontend.locate('fst_misc:fixup_one_index').node, None, 'fixup_one_index')
+        f = IFunc(it, loc.node, None, '_put_one')
+        code = None if case['delete'] else 'CODE'
+        w = n - docstr if field == '_body' else n
+        try:
+            it.call(f, (self, code, idx, field, {}, False))
+        except PyRaise as pr:
+            ctx.notes['outcome'] = f'raise {pr.cls.__name__}'
+            ctx.prove(f'{pre}.raises.only_out_of_range[{label}]', and_(pr.cls is IndexError, not_(pyindex_ok(w, idx))),
+                      info='refused only when a Python list of that length refuses the index')
+            ctx.prove(f'{pre}.raises.nothing_delegated[{label}]', not calls)
+            return
+        ctx.notes['outcome'] = 'return'
+        ctx.prove(f'{pre}.index.valid_like_list[{label}]', pyindex_ok(w, idx))
+        ok = len(calls) == 1
+        ctx.prove(f'{pre}.delegates_once[{label}]', ok)
+        if ok:
+            s_, e_, fld, one = calls[0]
+            i = pyindex(w, idx) + (docstr if field == '_body' else 0)
+            ctx.prove(f'{pre}.designation[{label}]', and_(eq(s_, i), eq(e_, i + 1)),
+                      info='the one-element window [i, i+1) of the real field that list indexing designates')
+            ctx.prove(f'{pre}.field_and_one[{label}]', fld == ('body' if field == '_body' else field) and one is True)
+
+    cases = [dict(field=fld, delete=d) for fld in ('elts', '_body') for d in (False, True)]
+    return [Fragment('fst_put_one:_put_one', prop, 'entry.put_one', cases, run, min_obligations=3,
+                     notes='sliceable branch (no dedicated handler / deletion, no `to`); ret_child=False')]
